@@ -405,6 +405,9 @@ class Lockstep:
             if "too-many-nodes-while-free" in exp.open_points:
                 self.bad("C11", "too-many-nodes-while-free",
                          f"TooManyNodesError although an id above the highest registered id ({max(model_nodes_before, default=0)}) is free")
+                self.bad("C06", "reaction-missing",
+                         f"id request {line!r:.60} got no id response (TooManyNodesError) although an id above the highest "
+                         f"registered id ({max(model_nodes_before, default=0)}) is free")
             if after != before:
                 self.bad("C11", "too-many-nodes-changed-registry", "registry changed by a failed id request")
             if [w for w in writes if w.strip() != "0;255;3;0;2;"]:
